@@ -10,6 +10,7 @@ import (
 	"hash/fnv"
 	"io"
 	"runtime"
+	"sync/atomic"
 	"time"
 
 	"github.com/mandykoh/prism/meta"
@@ -350,6 +351,10 @@ func errKind(err error, fail error) string {
 
 // Run calls the loader on src, optionally measuring allocation, and drains the
 // returned stream when drain is set.
+// LoadTimeout bounds one Load call (the largest inputs, 64 MiB delivered a byte at a time, take seconds).
+var LoadTimeout = 150 * time.Second
+var hangs int64
+
 func Run(loader string, src *Source, drain bool, measure bool) (o Obs) {
 	o.Loader = loader
 	o.ICC = "n/a"
@@ -362,14 +367,43 @@ func Run(loader string, src *Source, drain bool, measure bool) (o Obs) {
 		runtime.ReadMemStats(&m0)
 	}
 	t0 := time.Now()
-	func() {
+	// the call runs under a watchdog: a Load that does not return (it returns in milliseconds when it
+	// does) is recorded like a panic of the call; its goroutine is abandoned and no result of it is read
+	type result struct {
+		md     *meta.Data
+		stream io.Reader
+		err    error
+		pan    string
+	}
+	timeout := LoadTimeout
+	if n := atomic.LoadInt64(&hangs); n >= 20 {
+		o.Panic = "not run: 20 earlier calls in this process did not return"
+		o.StreamNil = true
+		return
+	} else if n > 0 {
+		timeout = 5 * time.Second // the process is already known to hang: do not spend 150 s on every further case
+	}
+	done := make(chan result, 1)
+	go func() {
+		var r result
 		defer func() {
-			if r := recover(); r != nil {
-				o.Panic = fmt.Sprint(r)
+			if rec := recover(); rec != nil {
+				r.pan = fmt.Sprint(rec)
 			}
+			done <- r
 		}()
-		md, stream, err = fn(src.Reader())
+		r.md, r.stream, r.err = fn(src.Reader())
 	}()
+	select {
+	case r := <-done:
+		md, stream, err, o.Panic = r.md, r.stream, r.err, r.pan
+	case <-time.After(timeout):
+		atomic.AddInt64(&hangs, 1)
+		o.Panic = fmt.Sprintf("the call did not return within %v", timeout)
+		o.WallNs = time.Since(t0).Nanoseconds()
+		o.StreamNil = true
+		return // src is still in use by the abandoned goroutine: its counters are not read
+	}
 	o.WallNs = time.Since(t0).Nanoseconds()
 	if measure {
 		runtime.ReadMemStats(&m1)
